@@ -32,7 +32,21 @@ Theorem reply_stream_delivered : Statement.reply_stream_delivered.
 Proof. exact reply_stream_delivered_l. Qed.
 Print Assumptions reply_stream_delivered.
 
+Theorem client_reassembles_any_fragmentation : Statement.client_reassembles_any_fragmentation.
+Proof. exact client_any_fragmentation_l. Qed.
+Print Assumptions client_reassembles_any_fragmentation.
+
+Theorem client_rejects_truncated : Statement.client_rejects_truncated.
+Proof. exact client_rejects_truncated_l. Qed.
+Print Assumptions client_rejects_truncated.
+
 (* non-vacuity *)
+Example client_example :
+  let final := fun b : bytes => match b with 1%N :: _ => true | _ => false end in
+  client_request final (feed [[0%N; 0%N; 0%N]; [2%N; 5%N; 6%N; 0%N; 0%N]; [0%N; 1%N; 1%N]]) = Some [[5%N; 6%N]; [1%N]] /\
+  client_request final (feed [[0%N; 0%N; 0%N; 2%N; 5%N; 6%N; 0%N; 0%N; 0%N; 1%N; 1%N]]) = Some [[5%N; 6%N]; [1%N]] /\
+  client_request final (feed [[0%N; 0%N; 0%N; 2%N; 5%N; 6%N; 0%N]; [0%N; 0%N]]) = None.
+Proof. repeat split; vm_compute; reflexivity. Qed.
 Example reply_example :
   read_until_final (fun b => match b with 1%N :: _ => true | _ => false end) 2 ipc_init
     (feed [[0%N; 0%N; 0%N]; [2%N; 5%N; 6%N; 0%N; 0%N]; [0%N; 1%N; 1%N]]) = Some [[5%N; 6%N]; [1%N]].
